@@ -197,8 +197,8 @@ theorem OwnInvA.base : Base E (OwnInvA a) (okOwn a) where
     exact Pres.modS_of (fun s hs => OwnInvA.of_same a (s := s) rfl rfl (Or.inl rfl) hs)
   modCtl := fun f h => Pres.modS_of (fun s hs =>
     OwnInvA.of_same a (h s).2.2.2.2.2.1 (h s).1 (h s).2.2.2.2.2.2.2.2 hs)
-  modCustom := fun f h => Pres.modS_of (fun s hs =>
-    OwnInvA.of_same a (h s).2.2.2.2.1 (h s).1 (Or.inl (by rw [(h s).2.2.2.2.2.2.2.2.2.2.1])) hs)
+  setHst := fun _ => Pres.modS_of (fun s hs => OwnInvA.of_same a (s := s) rfl rfl (Or.inl rfl) hs)
+  addCustom := fun _ _ _ => Pres.modS_of (fun s hs => OwnInvA.of_same a (s := s) rfl rfl (Or.inl rfl) hs)
 
 theorem renew_addr {p : Policy} {i j : Id} (h : renew p i = some j) : j.addr = i.addr := by
   cases p <;> simp [renew] at h <;> subst h <;> rfl
